@@ -712,6 +712,8 @@ class Unit:
         elif self.mode == "twin" and self.twin_target == my_index:
             if not d.get("twinkey"):
                 spec = twin_spec(spec)
+        if d.get("default_tag"):
+            self.emit("// [%s] body-safety obligations of `%s` (overflow, unwrap, index, callee preconditions)" % (d["default_tag"], d["name"]))
         for a in d["attr"]:
             self.emit(a)
         lo = self.cur_line()
